@@ -150,5 +150,5 @@ func checkC03(r *verdict.Run) {
 	r.Rule = "random sequences of list commands over 3 list keys (lengths 0-8 with duplicates) + wrong-typed + missing keys; indexes/counts/ranks in [-len-2, len+2] and extremes, source = destination for LMOVE/RPOPLPUSH, LMPOP over 1-3 keys, LPOS with RANK/COUNT/MAXLEN in any order; " +
 		"oracle per step: reply = reference model reply, full observable state = model state (element order, key disappears exactly when empty), failed commands inert. distinct = (command+options, prior key class, outcome class)"
 	runDiffSequences(r, tierPick(r, 300, 6000), func(rng *rand.Rand) int { return 30 + rng.Intn(50) },
-		[]string{"l0", "l1", "l2", "ws", "wh", "km"}, [][]string{{"SET", "ws", "str"}, {"HSET", "wh", "f", "v"}, {"RPUSH", "l0", "a", "b", "c", "a"}}, c03Gen)
+		[]string{"l0", "l1", "l2", "ws", "wh", "wt", "km"}, [][]string{{"SET", "ws", "str"}, {"HSET", "wh", "f", "v"}, {"SADD", "wt", "a", "b"}, {"RPUSH", "l0", "a", "b", "c", "a"}}, c03Gen)
 }
